@@ -300,6 +300,21 @@ def check_common_validators(ctx, eng, inbound):
         cm.show0(e.cond) for e in p.events if e.kind == 'assume' and
         not e.in_loop) if 'is None' not in c and '!=' not in c and
         '==' not in c]
+    # what is tested and compared are the field values as received: a value
+    # rewritten on the way into the local (`header[1] or None`, stripped,
+    # lower-cased ...) makes a present field count as absent or two
+    # different values count as equal
+    import re
+    OPND = r'(?:phi\(\w+\)|each\(headers\)\[1\])'
+    shape = re.compile(r'^(?:not )?\(%s (?:is None|(?:!=|==) %s)\)$'
+                       % (OPND, OPND))
+    for p in paths:
+        for e in p.events:
+            if e.kind == 'assume' and not e.in_loop:
+                c = cm.show0(e.cond)
+                if ('is None' in c or '!=' in c or '==' in c) and \
+                        not shape.match(c):
+                    bad.append('decides on a rewritten value: %s' % c)
     ctx.ob('ORD.clause', f4.qual, ':authority / Host agreement',
            missing and mismatch and not bad and not truthy,
            '; '.join(sorted(set(bad + ['presence decided by truthiness: %s'
@@ -417,8 +432,38 @@ def check_pseudo(ctx, eng):
         [cm.show0(a) for a in cm.calls_to(
             p, '_check_pseudo_header_field_acceptability')[0].args][2:] ==
         ['hdr_validation_flags'] for p in final)
+    # ... and with the method: what the block-type check compares with
+    # b'CONNECT' is the value of the :method field, as bytes whichever type
+    # the caller used
+    # (the variable itself, or the one variable of a test such as
+    # `method == b'CONNECT'` handed over in its place)
+    margs = set()
+    for n in ast.walk(fi.node):
+        if isinstance(n, ast.Call) and isinstance(n.func, ast.Name) and \
+                n.func.id == '_check_pseudo_header_field_acceptability' and \
+                len(n.args) >= 2:
+            nm = {x.id for x in ast.walk(n.args[1])
+                  if isinstance(x, ast.Name)}
+            margs.add(nm.pop() if len(nm) == 1 else None)
+    mvar = margs.pop() if len(margs) == 1 else None
+    meth = cm.Every()
+    for p in paths:
+        inl = [cm.show0(e.cond) for e in p.events
+               if e.kind == 'assume' and e.in_loop]
+        if p.exit == 'raise' or not any(
+                ":method'" in c and not c.startswith('not') for c in inl):
+            continue
+        v = p.state.env.get(mvar) if mvar else None
+        s = cm.show0(v) if v is not None else None
+        if s == V1:
+            meth('not isinstance(%s, bytes)' % V1 not in inl)
+        else:
+            meth(s in (".encode(%s, 'utf-8')" % V1,
+                       ".encode(%s, 'ascii')" % V1, ".encode(%s)" % V1))
+    fin_ok = fin_ok and bool(meth)
     ctx.ob('ORD.clause', fi.qual, 'bookkeeping of seen fields', add_ok and
            flag_ok and fin_ok, 'names added to the set that is tested; '
+           'the :method value kept (as bytes) for the block-type check; '
            'regular fields set the flag; the block-type check runs at the '
            'end with the collected set', node=fi.node)
     # block-type rules
@@ -498,14 +543,19 @@ def check_pseudo(ctx, eng):
         ctx.note('_assert_header_in_set not present; required-field tests '
                  'read at the use sites')
         return
-    ok = False
+    ok = cm.Every()
     for p in eng.I.run(f3):
         if cm.explicit_raise(p) is not None and \
                 p.exc['names'] == {'ProtocolError'}:
             conds = [cm.show0(e.cond) for e in p.events
                      if e.kind == 'assume']
-            ok = set(conds) == {'not (string_header in header_set)',
-                                'not (bytes_header in header_set)'}
+            ok(set(conds) == {'not (string_header in header_set)',
+                              'not (bytes_header in header_set)'})
+        elif p.exit in ('return', 'fall'):
+            conds = {cm.show0(e.cond) for e in p.events
+                     if e.kind == 'assume'}
+            ok(not {'not (string_header in header_set)',
+                    'not (bytes_header in header_set)'} <= conds)
     ctx.ob('ORD.clause', f3.qual, 'required field missing => refusal', ok,
            'ProtocolError iff neither spelling is in the set', node=f3.node)
 
